@@ -99,10 +99,13 @@ class ValidRange(Job):
     offgrid = "scale"      # comparison-only oracle: exact on every float, see harness.offgrid_probe
     functions = (("ioos_qc/axds.py", "valid_range_test"), ("ioos_qc/utils.py", "isnan"))
 
-    def __init__(self, n, kind, start_inclusive, end_inclusive, pass_flags=True, canary=None):
+    def __init__(self, n, kind, start_inclusive, end_inclusive, pass_flags=True, canary=None, frac=False):
         self.n, self.kind, self.si, self.ei, self.pass_flags, self.canary = n, kind, start_inclusive, end_inclusive, pass_flags, canary
+        self.frac = frac       # datetime64 only: timestamps and bounds carry a sub-second part (any ns)
         self.name = (f"valid_range {kind} n={n} start_inclusive={start_inclusive} end_inclusive={end_inclusive}"
-                     + ("" if pass_flags else " (defaults)") + (f" CANARY={canary}" if canary else ""))
+                     + ("" if pass_flags else " (defaults)") + (" sub-second stamps" if frac else "") + (f" CANARY={canary}" if canary else ""))
+        if frac:
+            self.offgrid = None
         if canary:
             self.expect_canary_sat = True
             self.validate_witnesses = False
@@ -116,8 +119,8 @@ class ValidRange(Job):
             S.x = V.floats("x", self.n, nan=True)
             S.span = [V.float("lo", nan=True), V.float("hi", nan=True)]   # nan = bound absent (None)
         else:
-            S.x = [V.time(f"x{i}", nat=True) for i in range(self.n)]
-            S.span = [V.time("lo", nat=True), V.time("hi", nat=True)]
+            S.x = [V.time(f"x{i}", nat=True, frac=self.frac, den=10 ** 9) for i in range(self.n)]
+            S.span = [V.time("lo", nat=True, frac=self.frac, den=10 ** 9), V.time("hi", nat=True, frac=self.frac, den=10 ** 9)]
         return S
 
     def invoke(self, mods, S, K):
@@ -137,7 +140,7 @@ class ValidRange(Job):
             return [("valid_range_test does not raise on a well-formed call", FALSE)]
         obl = shape_obligations(out, self.n)
         isf = self.kind == "float64"
-        val = (lambda v: v.v) if isf else (lambda v: v.s)
+        val = (lambda v: v.v) if isf else (lambda v: z3.ToReal(v.s) + v.f if getattr(v, "f", None) is not None else v.s)
         miss = (lambda v: v.nan) if isf else (lambda v: v.nat)
         lo, hi = S.span
         si, ei = (self.si, self.ei) if self.pass_flags else (True, False)
@@ -170,6 +173,9 @@ def jobs(tier):
                 for ei in (True, False):
                     out.append(ValidRange(n, kind, si, ei))
         out.append(ValidRange(2, kind, True, False, pass_flags=False))
+    for si in (True, False):
+        for ei in (True, False):
+            out.append(ValidRange(2, "datetime64", si, ei, frac=True))
     # vacuity canaries: a deliberately wrong oracle must be refuted
     out.append(GrossRange(2, True, canary="fail_inclusive"))
     out.append(GrossRange(2, True, canary="suspect_first"))
